@@ -43,7 +43,9 @@ def units(tier):
 def setup(ctx):
     import gemdat.volume as gv_
 
-    _mon.attach(gv_, 'trajectory_to_volume', label='volume.trajectory_to_volume')
+    from .. import retain as _rt
+
+    _mon.attach(gv_, 'trajectory_to_volume', label='volume.trajectory_to_volume', retain=_rt.volume, scribble=True)
     _mon.attach(gv_.Volume, 'voxel_to_frac_coords', label='Volume.voxel_to_frac_coords')
     _mon.attach(gv_.Volume, 'frac_coords_to_voxel', label='Volume.frac_coords_to_voxel')
 
